@@ -18,44 +18,59 @@ if [ "${CBV_NS:-1}" = "1" ]; then
     mkdir -p /sys/class/net/cbvphc0/device && printf 'DRIVER=ena\nPCI_SLOT_NAME=0000:00:05.0\n' > /sys/class/net/cbvphc0/device/uevent && PHC=1
   fi
 fi
+# wait_pub <pid> <generation to differ from>: sets res
+wait_pub() {
+  res=""
+  i=0
+  while [ $i -lt 3000 ]; do
+    i=$((i+1))
+    if ! kill -0 $1 2>/dev/null; then wait $1; res="EXIT $?"; return; fi
+    if [ -s /run/clockbound/shm ]; then
+      g=$(od -An -tu2 -j14 -N2 /run/clockbound/shm 2>/dev/null | tr -d ' ')
+      if [ -n "$g" ] && [ "$g" != "0" ] && [ "$g" != "$2" ] && [ $((g % 2)) -eq 0 ]; then
+        res="DRIFT $(od -An -tu4 -j56 -N4 /run/clockbound/shm | tr -d ' ') $(stat -c %s /run/clockbound/shm)"; return
+      fi
+    fi
+    sleep 0.004
+  done
+}
 while read -r c v; do
   rm -rf /run/clockbound
-  if [ "$c" -ge 2 ] && [ "$PHC" != "1" ]; then echo "RESULT $c $v SKIPPED"; continue; fi
+  if [ "$c" -ge 2 ] && [ "$c" -le 4 ] && [ "$PHC" != "1" ]; then echo "RESULT $c $v SKIPPED"; continue; fi
+  prev=0
+  if [ "$c" = "5" ] || [ "$c" = "6" ]; then
+    # a previous daemon instance with another rate leaves its segment behind
+    if [ "$c" = "5" ]; then "$BIN" >/dev/null 2>&1 & else "$BIN" --max-drift-rate=50 >/dev/null 2>&1 & fi
+    ppid=$!
+    wait_pub $ppid 0
+    kill $ppid 2>/dev/null; wait $ppid 2>/dev/null
+    case "$res" in DRIFT*) prev=$(od -An -tu2 -j14 -N2 /run/clockbound/shm | tr -d ' ') ;; *) echo "RESULT $c $v SETUP-OF-PREVIOUS-INSTANCE-FAILED"; continue ;; esac
+  fi
   case "$c:$v" in
-    0:default) "$BIN" >/dev/null 2>&1 & ;;
+    0:default|6:default) "$BIN" >/dev/null 2>&1 & ;;
     4:default) "$BIN" -r PHC0 -i cbvphc0 >/dev/null 2>&1 & ;;
-    0:*) "$BIN" "--max-drift-rate=$v" >/dev/null 2>&1 & ;;
+    0:*|5:*) "$BIN" "--max-drift-rate=$v" >/dev/null 2>&1 & ;;
     1:*) "$BIN" -m "$v" >/dev/null 2>&1 & ;;
     2:*) "$BIN" --max-drift-rate "$v" -r PHC0 -i cbvphc0 >/dev/null 2>&1 & ;;
     3:*) "$BIN" -i cbvphc0 -r PHC0 "--max-drift-rate=$v" >/dev/null 2>&1 & ;;
     *) echo "RESULT $c $v BADCONTEXT"; continue ;;
   esac
   pid=$!
-  res=""
-  i=0
-  while [ $i -lt 3000 ]; do
-    i=$((i+1))
-    if ! kill -0 $pid 2>/dev/null; then wait $pid; res="EXIT $?"; break; fi
-    if [ -s /run/clockbound/shm ]; then
-      g=$(od -An -tu2 -j14 -N2 /run/clockbound/shm 2>/dev/null | tr -d ' ')
-      if [ -n "$g" ] && [ "$g" != "0" ] && [ $((g % 2)) -eq 0 ]; then
-        res="DRIFT $(od -An -tu4 -j56 -N4 /run/clockbound/shm | tr -d ' ') $(stat -c %s /run/clockbound/shm)"; break
-      fi
-    fi
-    sleep 0.004
-  done
+  wait_pub $pid $prev
   kill $pid 2>/dev/null; wait $pid 2>/dev/null
   echo "RESULT $c $v ${res:-TIMEOUT}"
 done
 "#;
 
 /// How the option reaches the daemon (the published value must not depend on it).
-const CONTEXTS: [&str; 5] = [
+const CONTEXTS: [&str; 7] = [
     "--max-drift-rate=V (flag omitted for 'default')",
     "-m V",
     "--max-drift-rate V -r PHC0 -i <interface with a PTP hardware clock>",
     "-i <interface> -r PHC0 --max-drift-rate=V",
     "flag omitted, -r PHC0 -i <interface>",
+    "--max-drift-rate=V, restarting on the segment left behind by an instance that ran with the default rate",
+    "flag omitted, restarting on the segment left behind by an instance that ran with --max-drift-rate=50",
 ];
 
 fn alphabet(tier: Tier) -> Vec<(u8, String)> {
@@ -110,13 +125,13 @@ fn alphabet(tier: Tier) -> Vec<(u8, String)> {
     v.retain(|x| *x <= u32::MAX as u64);
     v.sort();
     v.dedup();
-    let mut out: Vec<(u8, String)> = vec![(0, "default".into()), (4, "default".into())];
+    let mut out: Vec<(u8, String)> = vec![(0, "default".into()), (4, "default".into()), (6, "default".into())];
     out.extend(v.iter().map(|x| (0u8, x.to_string())));
     // the other spellings / companions of the option: the structured values (not the stride sweep)
     boundary.retain(|x| *x <= u32::MAX as u64);
     boundary.sort();
     boundary.dedup();
-    for c in 1..=3u8 {
+    for c in [1u8, 2, 3, 5] {
         out.extend(boundary.iter().map(|x| (c, x.to_string())));
     }
     // clap-level rejects
@@ -204,7 +219,7 @@ pub fn run(ctx: &Ctx) -> i32 {
         }
         *per_context.entry(*c).or_insert(0) += 1;
         let how = CONTEXTS.get(*c as usize).copied().unwrap_or("?");
-        if r == "TIMEOUT" || r == "BADCONTEXT" {
+        if r == "TIMEOUT" || r == "BADCONTEXT" || r.starts_with("SETUP-OF") {
             machinery_failure(&format!("--max-drift-rate={v} ({how}): the daemon neither published nor exited within the time limit ({r})"));
         }
         let expected: Option<u64> = if v == "default" { Some(1000) } else { v.parse::<u64>().ok().filter(|x| *x <= u32::MAX as u64).map(|x| x * 1000) };
